@@ -5,7 +5,7 @@ INIT MCInit
 NEXT Next
 CONSTANTS
   Algo = "fixed"
-  SeedCopyreg = TRUE
+  SeedCopyreg = "live"
   Scns = {}
 INVARIANT TypeOK
 INVARIANT Inv_FreshStart
